@@ -121,6 +121,14 @@ class CfgScenario(explore.Scenario):
         for ss in self.subsets():
             for m in ("update", "ior", "iand", "isub", "ixor"):
                 out.append([m, ss])
+        # one-shot iterators as operands of the in-place operators, listing
+        # the edges in both orders (the abc mixins accept any iterable; a
+        # stricter TypeError that changes nothing is accepted too)
+        for ss in self.subsets():
+            if len(ss) >= 2:
+                for m in ("ior_it", "iand_it", "isub_it", "ixor_it"):
+                    out.append([m, ss])
+                    out.append([m, list(reversed(ss))])
         out.append(["ixor_self"])
         out.append(["isub_self"])
         for k in ("ior_self", "iand_self", "update_self", "update_gen"):
@@ -175,6 +183,11 @@ class CfgScenario(explore.Scenario):
         elif kind == "ixor":
             new ^= set(op[1])
             want_ret = "self"
+        elif kind in ("ior_it", "iand_it", "isub_it", "ixor_it"):
+            o_ = set(op[1])
+            new = {"ior_it": new | o_, "iand_it": new & o_,
+                   "isub_it": new - o_, "ixor_it": new ^ o_}[kind]
+            want_ret = "self-or-typeerror"
         elif kind in ("ixor_self", "isub_self"):
             new = set()
             want_ret = "self"
@@ -209,6 +222,10 @@ class CfgScenario(explore.Scenario):
                 fn = {"ior": operator.ior, "iand": operator.iand,
                       "isub": operator.isub, "ixor": operator.ixor}[kind]
                 res = fn(cfg, other)
+            elif kind.endswith("_it"):
+                fn = {"ior_it": operator.ior, "iand_it": operator.iand,
+                      "isub_it": operator.isub, "ixor_it": operator.ixor}[kind]
+                res = fn(cfg, iter([self.edge(w, i) for i in op[1]]))
             elif kind == "ixor_self":
                 res = operator.ixor(cfg, cfg)
             elif kind == "isub_self":
@@ -224,6 +241,12 @@ class CfgScenario(explore.Scenario):
                 res = cfg.update(e for e in cfg)
         except Exception as e:  # noqa
             exc = type(e).__name__
+        if want_ret == "self-or-typeerror":
+            if exc == "TypeError":
+                # refused like the built-in set would: nothing may change
+                # (check() compares the CFG with the unchanged model)
+                return v
+            want_ret = "self"
         if exc != want_exc:
             v.append(("C11/exception:%s:expected=%s:got=%s" % (kind, want_exc, exc),
                       "op %s on %s" % (op, sorted(M))))
